@@ -64,9 +64,9 @@ Proof.
   cbn [snd]. eapply ExtP_trans; [eapply Hg; eauto|eapply IH; eauto].
 Qed.
 
-Lemma accs_loop_Ext ce :
+Lemma accs_loop_Ext ce fu :
   (forall st x r, ce st x = COk r -> Ext st (snd r)) ->
-  forall accs st t r, accs_loop ce D st t accs = COk r -> Ext st (snd r).
+  forall accs st t r, accs_loop ce fu D st t accs = COk r -> Ext st (snd r).
 Proof.
   intros Hce. induction accs as [|a accs IH]; intros st t r H; cbn [accs_loop] in H; [inv_all; apply ExtP_refl|].
   apply cbind_ok in H. destruct H as [[[ta t'] st'] [H1 H2]]. cbv beta iota in H2.
@@ -102,7 +102,7 @@ Ltac use_R IHe IHss IHb IHs IHf := repeat match goal with
   | H : Infer.check_block _ _ _ _ _ = COk _ |- _ => apply IHb in H
   | H : mapM_st (Infer.check_expr _ _ _) _ _ = COk _ |- _ => apply (mapM_st_Ext _ IHe) in H
   | H : mapM_st (Infer.check_stmt _ _ _) _ _ = COk _ |- _ => apply (mapM_st_Ext _ IHs) in H
-  | H : accs_loop _ _ _ _ _ = COk _ |- _ => apply (accs_loop_Ext _ IHe) in H
+  | H : accs_loop _ _ _ _ _ _ = COk _ |- _ => apply (accs_loop_Ext _ _ IHe) in H
   | H : struct_lit_loop _ _ _ _ _ _ = COk _ |- _ => apply (struct_lit_loop_Ext _ _ _ IHe) in H
   end.
 
@@ -248,6 +248,45 @@ Proof.
   rewrite (Hmono_ct _ _ _ _ _ _ E1 E2). destruct (cty_eqb _ _); cbn [rok]; auto.
 Qed.
 
+Lemma rok_ct f f2 e t : rok eq (constrain_type f e t) (constrain_type f2 e t).
+Proof.
+  destruct (constrain_type f e t) as [a| | |] eqn:E1; cbn [rok]; auto.
+  destruct (constrain_type f2 e t) as [a'| | |] eqn:E2; auto. eapply Hmono_ct; eassumption.
+Qed.
+
+Lemma rok_coc_u f f2 e t : rok eq (coc_unsigned_deep f e t) (coc_unsigned_deep f2 e t).
+Proof. unfold coc_unsigned_deep. destruct (_ && _); [exact I|]. destruct (_ && _); [apply rok_ct|apply rok_eq]. Qed.
+
+Lemma rok_coc_s f f2 e t : rok eq (coc_signed_deep f e t) (coc_signed_deep f2 e t).
+Proof. unfold coc_signed_deep. destruct (_ && _); [exact I|]. destruct (_ && _); [apply rok_ct|apply rok_eq]. Qed.
+
+Lemma rok_unify f f2 a b : rok eq (unify f a b) (unify f2 a b).
+Proof.
+  unfold unify. cbv zeta. destruct (cty_eqb _ _); [apply rok_eq|].
+  destruct (ty_of a) as [| [] | [] | | | |]; destruct (ty_of b) as [| [] | [] | | | |]; try exact I;
+    (eapply rok_bind; [first [apply rok_coc_u|apply rok_coc_s]|]; intros x x' <-; apply rok_eq).
+Qed.
+
+Lemma rok_clause f f2 ret_ty (pc : tpattern * texpr) :
+  rok eq (if negb (cty_eqb ret_ty (ty_of (snd pc))) then
+            match ret_ty with
+            | CUnsigned expected => do x <- coc_unsigned_deep f (snd pc) expected; COk (fst pc, x)
+            | CSigned expected => do x <- coc_signed_deep f (snd pc) expected; COk (fst pc, x)
+            | _ => CErr E_UnexpectedType
+            end
+          else COk pc)
+         (if negb (cty_eqb ret_ty (ty_of (snd pc))) then
+            match ret_ty with
+            | CUnsigned expected => do x <- coc_unsigned_deep f2 (snd pc) expected; COk (fst pc, x)
+            | CSigned expected => do x <- coc_signed_deep f2 (snd pc) expected; COk (fst pc, x)
+            | _ => CErr E_UnexpectedType
+            end
+          else COk pc).
+Proof.
+  destruct (negb _); [|apply rok_eq]. destruct ret_ty; try exact I;
+    (eapply rok_bind; [first [apply rok_coc_u|apply rok_coc_s]|]; intros x x' <-; apply rok_eq).
+Qed.
+
 Lemma rok_i32 f f2 e : rok eq (constrain_to_i32 f e) (constrain_to_i32 f2 e).
 Proof.
   destruct (constrain_to_i32 f e) as [a| | |] eqn:E1; cbn [rok]; auto.
@@ -307,10 +346,16 @@ Ltac rr_core IHt :=
     | |- rok _ CNoFuel _ => exact I
     | |- rok _ (cbind (check_type _ ?e ?t) _) (cbind (check_type _ ?e ?t) _) =>
         eapply rok_bind; [apply rok_check_type|intros ? ? <-]
+    | |- rok _ (cbind (unify _ ?a ?b) _) (cbind (unify _ ?a ?b) _) =>
+        eapply rok_bind; [apply rok_unify|intros ? ? <-]
+    | |- rok _ (cbind (coc_unsigned_deep _ ?e ?t) _) (cbind (coc_unsigned_deep _ ?e ?t) _) =>
+        eapply rok_bind; [apply rok_coc_u|intros ? ? <-]
+    | |- rok _ (cbind (coc_signed_deep _ ?e ?t) _) (cbind (coc_signed_deep _ ?e ?t) _) =>
+        eapply rok_bind; [apply rok_coc_s|intros ? ? <-]
     | |- rok _ (cbind (constrain_to_i32 _ ?e) _) (cbind (constrain_to_i32 _ ?e) _) =>
         eapply rok_bind; [apply rok_i32|intros ? ? <-]
     | |- rok _ (cbind (mapM _ ?l) _) (cbind (mapM _ ?l) _) =>
-        eapply rok_bind; [apply rok_mapM; intros ?; first [apply rok_check_type|apply rok_eq]|intros ? ? <-]
+        eapply rok_bind; [apply rok_mapM; intros ?; first [apply rok_check_type|apply rok_eq|apply rok_clause]|intros ? ? <-]
     | |- rok _ (cbind (zipM _ ?l ?m) _) (cbind (zipM _ ?l ?m) _) =>
         eapply rok_bind; [apply rok_zipM; intros ? ?; first [apply rok_check_type|apply rok_eq]|intros ? ? <-]
     | |- rok _ (cbind ?r _) (cbind ?r _) => apply rok_pure; intros ?
@@ -321,19 +366,19 @@ Ltac rr_core IHt :=
 
 Ltac rp_fin := first [ split; [reflexivity|seq_solve] | exact I | reflexivity ].
 
-Lemma rok_accs_loop ce ce' : forall accs,
+Lemma rok_accs_loop ce ce' fu fu2 : forall accs,
   (forall st st' a, In a accs -> st_rel st st' -> match a with XAArray i => rok RP (ce st i) (ce' st' i) | _ => True end) ->
-  forall st st' t, st_rel st st' -> rok RP (accs_loop ce D st t accs) (accs_loop ce' D st' t accs).
+  forall st st' t, st_rel st st' -> rok RP (accs_loop ce fu D st t accs) (accs_loop ce' fu2 D st' t accs).
 Proof.
   induction accs as [|a accs IH]; intros H st st' t Hq; cbn [accs_loop]; [split; [reflexivity|exact Hq]|].
-  assert (IH' : forall st st' t, st_rel st st' -> rok RP (accs_loop ce D st t accs) (accs_loop ce' D st' t accs))
+  assert (IH' : forall st st' t, st_rel st st' -> rok RP (accs_loop ce fu D st t accs) (accs_loop ce' fu2 D st' t accs))
     by (intros; apply IH; [intros; apply H; [now right|assumption]|assumption]).
   pose proof (fun st st' => H st st' a (or_introl eq_refl)) as Ha. clear H IH.
   eapply rok_bind with (RA := fun r r' => fst r = fst r' /\ st_rel (snd r) (snd r')).
   - destruct a.
     + destruct (expect_array_type t); cbn [cbind rok]; auto.
       eapply rok_bind; [apply Ha; exact Hq|]. intros [i1 s1] [i1' s1'] [E1 S1]. cbn [fst snd] in *. subst i1'.
-      destruct (check_or_constrain_unsigned i1 Usize); cbn [cbind rok]; auto.
+      eapply rok_bind; [apply rok_coc_u|]. intros ix ix' <-. cbn [rok]. auto.
     + destruct (expect_tuple_type t); cbn [cbind rok]; auto. destruct (nthN _ _); cbn [rok]; auto.
     + destruct (expect_struct_type t); cbn [cbind rok]; auto.
       destruct (assocL _ (d_structs D)); cbn [rok]; auto. destruct (assocL _ _); cbn [rok]; auto.
